@@ -147,8 +147,10 @@ class Document(BlockToken):
         self.footnotes = {}
         self.line_number = 1
         token._root_node = self
-        self.children = tokenize(lines)
-        token._root_node = None
+        try:
+            self.children = tokenize(lines)
+        finally:
+            token._root_node = None
 
 
 class Heading(BlockToken):
